@@ -111,7 +111,15 @@ def build(tier, repo):
                 bad = []
                 for kk in spec["kept"]:
                     obj = items.get(kk)
-                    fs = [pf.norm_expr(f) for f in scal_factors.get(obj.id, [])] if isinstance(obj, ast.Name) else []
+                    def _resolved(f_):
+                        # a factor held in a local that is assigned exactly once (`pscale = 1.0/(-hz - by)`) stands for that expression
+                        if isinstance(f_, ast.Name):
+                            defs_ = [a_ for a_ in pf._scope_nodes(fn) if isinstance(a_, ast.Assign) and len(a_.targets) == 1
+                                     and isinstance(a_.targets[0], ast.Name) and a_.targets[0].id == f_.id]
+                            if len(defs_) == 1:
+                                return pf.norm_expr(defs_[0].value)
+                        return pf.norm_expr(f_)
+                    fs = [_resolved(f) for f in scal_factors.get(obj.id, [])] if isinstance(obj, ast.Name) else []
                     if fs != [want]:
                         bad.append("%s scaled by %s" % (kk, fs))
                 if bad:
